@@ -139,6 +139,12 @@ def run(R, tier):
         g = rows.get(("#%s10" % letter).encode())
         reader[letter] = g[2] if isinstance(g, tuple) and g and g[0] == "Ok" else (g[0] if isinstance(g, tuple) and g else g)
     exp_reader = {"H": 16, "h": 16, "Q": 8, "q": 8, "B": 2, "b": 2, "X": "Err", "Z": "Err"}
+    # ... and reads back the largest value each writer can produce (the 64-bit maximum: 16 hex, 22 octal - whose leading digit
+    # carries one bit only - and 64 binary digits; seed C09-O)
+    for radix_, text_ in ((16, b"#H" + b"F" * 16), (8, b"#Q1" + b"7" * 21), (2, b"#B" + b"1" * 64)):
+        g = rows.get(text_)
+        ok_ = isinstance(g, tuple) and g and g[0] == "Ok" and g[2] == 2 ** 64 - 1
+        R.check(ok_, "R09.8", "reader:max-radix-%d" % radix_, "the reader accepts %s as 2^64-1" % text_.decode(), "the largest value the radix-%d writer produces, %s, is read back as %s" % (radix_, text_.decode(), g), where=span_)
     R.check(reader == exp_reader, "R09.8", "radix-letters", "reader: #H/#h -> 16, #Q/#q -> 8, #B/#b -> 2, other letters refused; the writers use the same letters", "lexer radix table %s disagrees with the #H/#Q/#B writers" % reader, where=span_)
 
     # ---- R09.2 reals -------------------------------------------------------------------------------------
@@ -324,6 +330,12 @@ def run(R, tier):
                     exp.append(("item", "el%d" % i))
                 cases.append(("n=%d" % n, lst, exp))
         table("R09.7", who.split("<")[0].split("::")[-1], bs[0], cases, "every element once, in order, joined by ',' (none leading or trailing); empty list refused")
+    # R09.13 a value that cannot be written (an empty list, non-ASCII text, a block too long to announce) fails the unit as a
+    # whole, wherever it stands among the unit's data: once a datum has been refused nothing more is written and the refusal
+    # is what finish() returns - a later datum must not turn `<refused>,0` into the answer `,0` (seed C09-N). The same table as
+    # R11.3 / R05.6: ResponseUnit::data and ::header from every unit state holding a stored failure.
+    from . import c11 as _c11
+    _c11._latch(R, P, u, rule="R09.13")
     # R09.10 every other writer of the workspace: unit quantities, Auto, SYSTem:VERSion - and a census that no
     # ResponseData impl is left without a rule
     covered = set()
